@@ -915,6 +915,54 @@ def run_equals(case, ctx):
             ctx.check((ts1 == ts2) == (not A), "ts.__eq__", "")
 
 
+# ------------------------------------------------------------------ long tables and fat cells
+@st.composite
+def large_case(draw):
+    """A small arbitrary-rows collection (every table non-empty) whose rows are repeated until every table has more
+    than 2^16 rows, or whose ragged cells are blown up to more than 2^16 bytes each; file channels only (a pipe
+    holds 1 MiB)."""
+    spec = draw(S.g3_spec(max_rows=3).filter(lambda sp: all(sp[nm] for nm in S.MD_TABLES) and sp["provenances"]))
+    return dict(
+        spec=spec, kind="tc", builder=draw(st.sampled_from(["columns", "dict32", "dict64", "rows"])),
+        dump=draw(st.sampled_from(FILE_CH)), load=draw(st.sampled_from(FILE_CH)),
+        loader_ts=False, protocol=draw(st.sampled_from([2, 4, 5])),
+        skip=draw(st.sampled_from([[True, False], [False, True], [True, True]])), skip_ts=False,
+        how=draw(st.sampled_from(["rows", "rows", "cells"])), rep=draw(st.sampled_from([66000, 70001, 33000])),
+        fat=draw(st.sampled_from([70000, 140001])),
+    )
+
+
+def amplify(case):
+    spec = _copy.deepcopy(case["spec"])
+    if case["how"] == "rows":
+        for nm in S.TABLES:
+            k = -(-case["rep"] // len(spec[nm]))
+            spec[nm] = [list(r) for _ in range(k) for r in spec[nm]]
+        if isinstance(spec.get("index"), list):
+            k = len(spec["edges"]) // len(spec["index"][0]) if spec["index"][0] else 0
+            spec["index"] = [list(spec["index"][0]) * k, list(spec["index"][1]) * k]
+    else:
+        # every string-valued cell of the first row of each table becomes `fat` bytes long
+        for nm in S.TABLES:
+            row = spec[nm][0]
+            cols = list(dict(sites=[1], mutations=[2], provenances=[0, 1]).get(nm, []))
+            if nm in S.MD_INDEX and not spec["schemas"].get(nm):
+                cols.append(S.MD_INDEX[nm])  # metadata under a schema keeps its (decodable) value
+            for j in cols:
+                unit = row[j] or "\x00"
+                row[j] = (unit * (case["fat"] // len(unit) + 1))[: case["fat"]]
+    out = dict(case)
+    out["spec"] = spec
+    return out
+
+
+def run_large(case, ctx):
+    big = amplify(case)
+    ctx.label("amplify_" + case["how"])
+    run_roundtrip(big, ctx)
+    ctx.nt(True)
+
+
 SUBCHECKS = [
     SubCheck("C05.roundtrip", run_roundtrip, strategy=roundtrip_case, quick=2400, thorough=72000,
              rule="a ragged column with both an empty and a non-empty row, or a NaN payload (NaN other "
@@ -937,4 +985,6 @@ SUBCHECKS = [
                      "aspect_prov_ts": 0.03, "aspect_ref": 0.02, "aspect_ref_md": 0.005,
                      "aspect_time_units": 0.015, "aspect_L": 0.015, "some_option_set_equalises": 0.3,
                      "no_difference": 0.03, "ts_level": 0.03}),
+    SubCheck("C05.large", run_large, strategy=large_case, quick=8, thorough=400, shards=16, max_shrink_runs=(30, 200),
+             rule="arbitrary-rows collections amplified to >2^16 rows per table, or to ragged cells of >2^16 bytes"),
 ]
